@@ -99,6 +99,19 @@ def _tol(ref):
 
 
 def run_case(spec, ctx):
+    out = _run_once(spec, ctx)
+    if spec.get("second_lr"):
+        # a second, freshly built training run in the same process (other learning rate): state that
+        # leaks between Solver / OptimizerSetting objects shows up as a mismatch with the reference
+        spec2 = dict(spec, opt=dict(spec["opt"], lr=spec["opt"]["lr"] * spec["second_lr"]), val=[], second_lr=None)
+        out2 = _run_once(spec2, ctx)
+        if out and out2:
+            out["classes"] = list(out.get("classes", [])) + ["second-training"]
+            out["summary"] = dict(out.get("summary") or {}, second=out2.get("summary"))
+    return out
+
+
+def _run_once(spec, ctx):
     N = spec["steps"]
     feature = _feature(spec)
     has_val = bool(spec.get("val"))
